@@ -2,6 +2,7 @@
 From Coq Require Import List Bool Arith.
 From HV Require Import Ord Sprout Tree TreeLemmas TreeInv TreeRun.
 From HV Require Import DriverPrim Driver DriverFacts GenDriver GenEquivDriver DriverCode GenStops GenEquivStops.
+From HV Require Import Ctor GenCtor GenEquivCtor.
 Import ListNotations.
 
 (* between metaepochs (and whenever no deme is mid-metaepoch): every deme has advanced by exactly one metaepoch if it was
@@ -80,3 +81,30 @@ Print Assumptions C06_translated_DontStop.
 Theorem C06_translated_DontRun c fuel d s : exists b, answers (gen_DontRun_deme c fuel d) s b /\ lsc_eval LDontRun d (demes (ms s)) = Some b.
 Proof. exact (DontRun_deme_ok c fuel d s). Qed.
 Print Assumptions C06_translated_DontRun.
+
+(* ---------------------------------------------------------------- the same for the TRANSLATED constructors.
+   Gen/GenCtor.v is regenerated on every check from AbstractDeme.__init__, the __init__ of EADeme, DEDeme, SHADEDeme, CMADeme, LocalDeme,
+   LHSDeme, SobolDeme (+ the run() the two samplers call), Individual.__init__ / evaluate / evaluate_population / create_population,
+   init_from_config and DemeTree.__init__ (hv/translate/ctor_py.py); `ctor_ok lvl started local o pop`: the constructor built the deme
+   `fresh_deme lvl started n` the machine's sprouting step assumes, its history holding exactly the start population pop. *)
+(* lifecycle starts in the constructor: every class builds an ACTIVE deme that has run zero metaepochs (fresh_deme), started at the
+   metaepoch init_from_config was given *)
+Theorem C06_translated_ctor_starts_active lvl started n : d_active (fresh_deme lvl started n) = true /\ d_meta (fresh_deme lvl started n) = 0 /\ d_started (fresh_deme lvl started n) = started.
+Proof. repeat split. Qed.
+Theorem C06_translated_ctors lvl started seed pop_size : 1 <= pop_size ->
+  Forall (fun o => exists n, o = Some (fresh_deme lvl started n))
+    [built (gen_EADeme_init pop_size (gen_init_args lvl started seed)) false; built (gen_DEDeme_init pop_size (gen_init_args lvl started seed)) false;
+     built (gen_SHADEDeme_init pop_size (gen_init_args lvl started seed)) false; built (gen_CMADeme_init pop_size (gen_init_args lvl started seed)) false;
+     built (gen_LHSDeme_init pop_size (gen_init_args lvl started seed)) false; built (gen_SobolDeme_init pop_size (gen_init_args lvl started seed)) false;
+     built (gen_LocalDeme_init (gen_init_args lvl started seed)) true].
+Proof.
+  intros H. repeat constructor.
+  - destruct (EADeme_ctor_ok lvl started seed pop_size H) as (A & _). eauto.
+  - destruct (DEDeme_ctor_ok lvl started seed pop_size H) as (A & _). eauto.
+  - destruct (SHADEDeme_ctor_ok lvl started seed pop_size H) as (A & _). eauto.
+  - destruct (CMADeme_ctor_ok lvl started seed pop_size) as (A & _). eauto.
+  - destruct (LHSDeme_ctor_ok lvl started seed pop_size) as (A & _). eauto.
+  - destruct (SobolDeme_ctor_ok lvl started seed pop_size) as (A & _). eauto.
+  - destruct (LocalDeme_ctor_ok lvl started seed) as (A & _). eauto.
+Qed.
+Print Assumptions C06_translated_ctors.
